@@ -302,3 +302,18 @@ Theorem cap_figures_as_restricted fa c thr g z :
   run_shapes_cur fa c thr g =
   run_shapes2 fa (with_cap c z) thr (restrict_typing (r_tau c) (r_targets c) (Z.to_nat (r_cap c)) g) g.
 Proof. intros. apply run_shapes_cap_is_restriction; assumption. Qed.
+
+(** C01 for the one-document run with the shexing stage in the order the code
+    has: no domain needed ([run_shapes_cur c thr g] is [run_shapes2 c thr g g],
+    and [e2e2_figures] rests on [ShexingFixProofs.stage_K3], which holds in both orders) *)
+Corollary cur_figures_exact fa c thr g ns shapes :
+  run_shapes_cur fa c thr g = inl (ns, shapes) ->
+  exists I, track (r_tau c) (mode_of c) (r_cap c) g = inl I /\
+    forall sh, In sh shapes ->
+      In (sh_class sh) (class_keys (targets_of (pcfg_of c)) I) /\
+      sh_name sh = shape_name (r_shapes_ns c) (sh_class sh) /\
+      sh_n sh = class_count I (sh_class sh) /\
+      forall st, In st (sh_stmts sh) ->
+        (s_inv st = true -> r_inverse c = true) /\
+        post_okR (scfg_of c ns) (fig_occ (r_tau c) I g (dir_of (s_inv st)) (sh_class sh) (s_prop st)) st.
+Proof. intros H. rewrite run_shapes_is_run_shapes2 in H. exact (e2e2_figures fa c thr g g ns shapes H). Qed.
